@@ -62,6 +62,24 @@ initadd(struct initparser *p, struct init *new)
 	p->last = &new->next;
 }
 
+/* remove the initializers inside the current sub-object, which is about to be initialized as a whole */
+static void
+initclear(struct initparser *p)
+{
+	struct init **init, *old;
+	unsigned long long start, end;
+
+	start = p->sub->offset;
+	end = start + p->sub->type->size;
+	for (init = &p->init; old = *init;) {
+		if (start <= old->start && old->end <= end)
+			*init = old->next;
+		else
+			init = &old->next;
+	}
+	p->last = &p->init;
+}
+
 static void
 subobj(struct initparser *p, struct type *t, unsigned long long off)
 {
@@ -232,6 +250,8 @@ parseinit(struct scope *s, struct type *t)
 				assert(p.cur->type->kind == TYPEARRAY);
 				focus(&p);
 			}
+			if (p.cur && !p.sub->type->incomplete)
+				initclear(&p);
 			p.cur = p.sub;
 			p.cur->iscur = true;
 			continue;
